@@ -504,6 +504,12 @@ pub fn contexts() -> Vec<Context> {
         // \K, \G, word boundary
         ("□\\K□'", cat(vec![h0(), Node::KeepOut, h1()])),
         ("(?<=x\\K)□", cat(vec![lb(cat(vec![x(), Node::KeepOut])), h0()])),
+        ("(?<=\\K□)", lb(cat(vec![Node::KeepOut, h0()]))),
+        ("(?<=\\G□)", lb(cat(vec![Node::ContG, h0()]))),
+        ("(?<!\\G□)", nlb(cat(vec![Node::ContG, h0()]))),
+        ("(?<=\\G□)|□'", alt(vec![lb(cat(vec![Node::ContG, h0()])), h1()])),
+        ("x|(?<=\\K□)□'", alt(vec![x(), cat(vec![lb(cat(vec![Node::KeepOut, h0()])), h1()])])),
+        ("(?=□\\K)□'", cat(vec![la(cat(vec![h0(), Node::KeepOut])), h1()])),
         ("\\G□", cat(vec![Node::ContG, h0()])),
         ("□\\G", cat(vec![h0(), Node::ContG])),
         ("(?:\\G□)+", plus(cat(vec![Node::ContG, h0()]))),
